@@ -597,7 +597,10 @@ def ascii_dec_table(f, rule):
             env = {chname: v, upper_name: up, ps[0]: "DATA", ps[1]: "OUT", ps[2]: "ECIS"}
             fo = T.Folder(f, env=env, on_call=_push_hook(sink, extra), effects=True)
             try:
-                fo.fold(then)
+                try:
+                    fo.fold(then)
+                except T.ContinueEx:
+                    pass        # `continue` = on to the next codeword, like reaching the end of the body
                 tab[(up, v)] = ("cont", tuple(sink), fo.env[upper_name])
             except T.ReturnEx as rx:
                 rv = rx.value
